@@ -35,6 +35,10 @@ VBool(b) == VInt(IF b THEN 1 ELSE 0)
 
 IsUnspec(v) == v.t = "unspec"
 IsTok(v) == v.t = "real" /\ v.s # ""
+\* the token "sm" with i = k # 0 stands for the real k * 2^-60 (|k| < 2^20): closer to zero, and to each other, than any tolerance,
+\* but distinct numbers all the same.  Equality, ordering and truthiness are specified for them; arithmetic is not
+VSm(k) == Val("real", k, 0, "sm")
+IsSm(v) == v.t = "real" /\ v.s = "sm"
 IsObj(v) == v.t \in {"str", "ref", "fn", "nat", "clo"}
 
 RECURSIVE Pow2(_)
@@ -91,8 +95,13 @@ Arith(op, a, b, la, lb) ==
 
 \* ---- ordering of two values when at least one is a number, or both are numbers after
 \* coercion; result "LT" / "EQ" / "GT"
+\* sign of an ordinary (not small, not big) number
+SgnOf(v, tablen) == LET n == AsDy(v, tablen)[1] IN IF n > 0 THEN 1 ELSE IF n < 0 THEN -1 ELSE 0
 NumCmp(a, b, la, lb) ==
-  IF IsBig(a) /\ IsBig(b) THEN (IF a.i < b.i THEN "LT" ELSE IF a.i > b.i THEN "GT" ELSE "EQ")
+  IF IsSm(a) /\ IsSm(b) THEN (IF a.i < b.i THEN "LT" ELSE IF a.i > b.i THEN "GT" ELSE "EQ")
+  ELSE IF IsSm(a) THEN (IF IsBig(b) \/ SgnOf(b, lb) > 0 THEN "LT" ELSE IF SgnOf(b, lb) < 0 THEN "GT" ELSE IF a.i > 0 THEN "GT" ELSE "LT")
+  ELSE IF IsSm(b) THEN (IF IsBig(a) \/ SgnOf(a, la) > 0 THEN "GT" ELSE IF SgnOf(a, la) < 0 THEN "LT" ELSE IF b.i > 0 THEN "LT" ELSE "GT")
+  ELSE IF IsBig(a) /\ IsBig(b) THEN (IF a.i < b.i THEN "LT" ELSE IF a.i > b.i THEN "GT" ELSE "EQ")
   ELSE IF IsBig(a) THEN "GT"         \* larger than every other modelled number, length and nil
   ELSE IF IsBig(b) THEN "LT"
   ELSE LET c == Common(AsDy(a, la), AsDy(b, lb)) IN
